@@ -477,7 +477,12 @@ func (db *RockDB) ZRem(ts int64, key []byte, members ...[]byte) (int64, error) {
 		return 0, err
 	}
 	if keyInfo.Expired {
-		// an expired collection is dead: nothing to remove
+		// an expired collection is dead: nothing to remove (the members are checked as for a missing zset)
+		for i := 0; i < len(members); i++ {
+			if err := common.CheckKeySubKey(key, members[i]); err != nil {
+				return 0, err
+			}
+		}
 		return 0, nil
 	}
 	table := keyInfo.Table
